@@ -265,11 +265,12 @@ def c16(out):
     out.rule = ("complete enumeration of {3 CTR + 3 parallel-ECB init functions} x {back ends available} x {every allocation request the init makes, found by a dry run of the monitor} x "
                 "{6 prior contents of the caller's handle: zero, 0xFF, 0xA5, random, stale copy of a live handle with ctx -> harness decoy, stale copy with ctx -> PROT_NONE}; repeated with fresh random bytes. "
                 "After the injected failure: init must return 0, leave no live block, and a battery of every other API function plus cleanup twice must return 0 without allocator events, without freeing or "
-                "writing the decoy and without faulting; a live bystander object must be unaffected.")
+                "writing the decoy and without faulting; a live bystander object must be unaffected. Every second sweep runs on an allocator that only guarantees 8-byte alignment; "
+                "the enumeration is repeated on alternative compile-time paths (32-bit words, byte-order-neutral, unaligned off, no AVX2).")
     reps = n(out, 12, 400)
-    v = [("prod", 108 * reps), ("asan", 108 * max(2, reps // 4))]
+    v = [("prod", 108 * reps), ("asan", 108 * max(2, reps // 4)), ("prod+W32", 108 * 2), ("clang+Os+NEUTRAL", 108 * 2), ("prod+UNAL0+NOAVX2", 108 * 2)]
     if out.tier == "thorough":
-        v += [("clang", 108 * 50), ("prod+NOSIMD", 108 * 10), ("prod+W32", 108 * 10)]
+        v += [("clang", 108 * 50), ("prod+NOSIMD", 108 * 10), ("prod+W32", 108 * 10), ("clang+W32+UNAL0", 108 * 10), ("prod+O0", 108 * 10), ("prod+NATIVE+NDEBUG", 108 * 10)]
     _life(out, "C16", "c16", v)
     out.exhaustive = True
     out.observed["enumeration"] = "case index mod 108 = (init function 6) x (back end 3) x (prior class 6); every allocation request 1..N of the init is failed inside each case"
@@ -436,15 +437,15 @@ def c11(out):
 # --------------------------------------------------------------------- C13
 @check("C13")
 def c13(out):
-    out.rule = ("case index -> (init function of six, emulated CPU model of eight incl. two where XGETBV is emulated by single-stepping (XCR0=3, XCR0=1), trapped x4 / real CPUID x1); in each case the init is called 24 times through an assembly trampoline with rcx, rdx, rsi, r8-r11, rbx, rax "
+    out.rule = ("case index -> (init function of six, emulated CPU model of nine incl. two where XGETBV is emulated by single-stepping (XCR0=3, XCR0=1) and an SSE2-only K8-class CPU, trapped x4 / real CPUID x1); in each case the init is called 24 times through an assembly trampoline with rcx, rdx, rsi, r8-r11, rbx, rax "
                 "set to 0,1,2,3,7,0x100,0xdeadbeef,~0 and random values, handle pre-filled 0x00/0xCC, stack painted; every CPUID executed is trapped (arch_prctl ARCH_SET_CPUID) and logged with its leaf and sub-leaf register; "
                 "oracle: selected back end (from the handle) == widest back end compiled in and supported by the served CPUID table + real XCR0, identical on every call, leaf-7 sub-leaf register independent of the "
-                "calling context, parallel_size behaves as the selected back end's batch; for CPU/OS models without usable AVX a whole object life cycle is single-stepped (EFLAGS.TF) and no VEX/EVEX-encoded instruction may execute in library code. distinct = distinct (init, model, register context).")
-    builds = [("prod", 1, 1, n(out, 960, 24000))]
+                "calling context, parallel_size behaves as the selected back end's batch; for CPU/OS models without usable AVX a whole object life cycle is single-stepped (EFLAGS.TF) and no VEX/EVEX-encoded instruction may execute in library code; on the SSE2-only model no SSE3/SSSE3/SSE4/POPCNT-class instruction either (opcode maps 0F38/0F3A etc.); inits on models with OSXSAVE clear are single-stepped and must not execute XGETBV. distinct = distinct (init, model, register context).")
+    builds = [("prod", 1, 1, n(out, 1080, 27000))]
     if out.tier == "thorough":
         builds += [("clang", 1, 1, 3600), ("prod+O0", 1, 1, 3600), ("prod+NOAVX2", 1, 0, 1800), ("prod+NOSIMD", 0, 0, 1800), ("clang+O1", 1, 1, 1800), ("prod+O1", 1, 1, 1800)]
     else:
-        builds += [("prod+O0", 1, 1, 480), ("clang", 1, 1, 480), ("prod+NOSIMD", 0, 0, 240)]
+        builds += [("prod+O0", 1, 1, 540), ("clang", 1, 1, 540), ("prod+NOSIMD", 0, 0, 270)]
     for vname, h128, h256, cases in builds:
         exe = build_driver("drv_cpuid", ["drv_cpuid.c"] + HIST, vname)
         run_sharded(out, exe, ["--has128", str(h128), "--has256", str(h256)], vname, cases)
